@@ -9,6 +9,26 @@ VERIF = os.path.dirname(os.path.dirname(os.path.abspath(__file__)))
 TECH = 'Lean 4 theorems on a hand-written model + differential correspondence check + property probe'
 NOTE = 'Trusted: Lean kernel + {propext, Classical.choice, Quot.sound} (audited per theorem on every run); the hand-written model is tied to the C++ by a seeded differential test, not by proof; '
 CLAIMED = {
+    'C05': ('proof', TECH,
+            'Point-to-plane rows [n, s x n] and residual (t-s).n are the linearised point-to-plane distance; the returned matrix is '
+            'scatter(A x + b) with x the least-squares solution of that system (normal equations, minimality among all identity + skew + '
+            'translation matrices) from any reachable estimator state; a pure translation is recovered exactly when the normals span the '
+            'space; exact identity and bound for the linearisation residual of an exact rotation; invariance under isotropic preconditioning, '
+            'indexed vs aligned correspondences, homogeneous vs Cartesian points. 24 theorems in RomeaProofs/Properties/C05.lean (the final '
+            'O(t^2) bound on the solution is `rotation_error_second_order_partial`: it still needs a bound on 1/sigma_min(J)). Differential on '
+            'all eight point types and four overloads; probe against an independent Householder-QR solution.',
+            NOTE + 'built on the C07 solver model; Eigen decompositions are oracle parameters with monitored contracts.',
+            'DESIGN.md section 6, C05'),
+    'C07': ('proof', TECH,
+            'Solver as a state machine (grow-only buffers whose reallocated contents are arbitrary "junk" the theorems quantify over): '
+            'normal equations + Pythagoras => minimiser; SVD and Cholesky paths return A (J^T J)^-1 J^T Y + b under their oracle contracts and '
+            'agree; weighted variant minimises sum (w_i r_i)^2; covariance formula; and the HISTORY theorems by induction over every op '
+            'sequence: the estimate depends only on the estimate size, the preconditioner and rows 0..n-1 of the current problem, so a '
+            'smaller problem after a larger one equals a fresh solver. 34 theorems in RomeaProofs/Properties/C07.lean. Differential on problem '
+            'sequences with shrinking/growing sizes and stale rows, float and double; probe against an independent QR solve.',
+            NOTE + 'JacobiSVD / LDLT are oracle parameters (contracts monitored); the absolute singular-value cut makes badly scaled problems a '
+            'separate matter (outside the stated domain, counted by the probe).',
+            'DESIGN.md section 6, C07'),
     'C04': ('proof', TECH,
             'For every SVD oracle meeting the contract (U, V orthogonal, S diagonal non-negative descending, A = U S V^T), any dimension and both '
             'point sizes: the linear part is a proper rotation (R^T R = 1, det R = 1 exactly, with the determinant correction); exact recovery '
